@@ -24,6 +24,7 @@ func init() {
 			ruleNoSwallowedErrors(r, "R7", 20, true, "/wire")
 			ruleC06R8(r)
 			ruleCtxParamUsed(r, "R9")
+			r.borrow("C08", func() { ruleNoRoundTripUnderConnLock(r, newLockEngine(r.P), "X3") }) // a second request is sent while the first is unanswered: the broker may answer in any order
 			ruleLockPairingFor(r, le, "R6", "lock pairing in the correlation paths: every function that touches the reply table releases ClientConn.mu on every path (the not-found edge of the router included)", func(fn *ssa.Function) bool {
 				for _, a := range collectAccesses(fn) {
 					if fieldKey(a.Owner, a.Field) == "/wire.ClientConn.replyCh" {
@@ -47,6 +48,66 @@ func ruleC06R1(r *Run) {
 		l := p.Leaves(v, provOpts{})
 		return hasLeaf(l, "call:/wire.IDGenerator.Next") && hasLeaf(l, "addr:/wire.ClientConn.idGenerator") && len(leavesWithin(l, []string{"call:/wire.IDGenerator.Next", "addr:/wire.ClientConn.idGenerator", "param:*"})) == 0
 	}
+	// (c) the id is stamped inside sendRequest: a store to RequestID of the request parameter with a generator value —
+	// directly, or in a helper (setRequestID(req, id)) whose type switch has to name the dynamic type of the request;
+	// stampedTypes lists the types for which that happens ("*" = any: the store goes through an interface method or an
+	// unconditional path)
+	stampedTypes := map[string]bool{}
+	stampInSend := false
+	{
+		reqPrm := ssa.Value(nil)
+		if len(send.Params) > 2 {
+			reqPrm = send.Params[2]
+		}
+		var scan func(fn *ssa.Function, prm ssa.Value, genOK func(ssa.Value) bool, depth int)
+		scan = func(fn *ssa.Function, prm ssa.Value, genOK func(ssa.Value) bool, depth int) {
+			if fn == nil || fn.Blocks == nil || depth > 2 {
+				return
+			}
+			allInstrs(fn, func(ins ssa.Instruction) {
+				switch x := ins.(type) {
+				case *ssa.Store:
+					fa, isFA := x.Addr.(*ssa.FieldAddr)
+					if !isFA {
+						return
+					}
+					f := fieldOf(fa.X.Type(), fa.Field)
+					if f == nil || f.Name() != "RequestID" || !genOK(x.Val) {
+						return
+					}
+					// the object is the request narrowed by a type assertion / type switch
+					base := canonVal(fa.X)
+					if ex, isEx := base.(*ssa.Extract); isEx {
+						base = ex.Tuple
+					}
+					if ta, isTA := base.(*ssa.TypeAssert); isTA && canonVal(ta.X) == prm {
+						stampedTypes[ta.AssertedType.String()] = true
+						stampInSend = true
+					}
+				case *ssa.Call:
+					cal := x.Call.StaticCallee()
+					if cal == nil || !p.Analysed(cal) || !dominatesAllReturnsOrWrite(x, send) {
+						return
+					}
+					ri, gi := -1, -1
+					for i, a := range x.Call.Args {
+						if canonVal(a) == prm {
+							ri = i
+						} else if genOK(a) {
+							gi = i
+						}
+					}
+					if ri >= 0 && gi >= 0 && ri < len(cal.Params) && gi < len(cal.Params) {
+						gp := ssa.Value(cal.Params[gi])
+						scan(cal, cal.Params[ri], func(v ssa.Value) bool { return canonVal(v) == gp }, depth+1)
+					}
+				}
+			})
+		}
+		if reqPrm != nil {
+			scan(send, reqPrm, isGenNext, 0)
+		}
+	}
 	sites := p.staticCallSites(send)
 	for _, s := range sites {
 		fn := s.Parent()
@@ -54,6 +115,20 @@ func ruleC06R1(r *Run) {
 		req := instrCall(s).Args[2]
 		ok := false
 		detail := ""
+		if stampInSend {
+			if mi, isMI := req.(*ssa.MakeInterface); isMI {
+				t := mi.X.Type().String()
+				ok = stampedTypes[t]
+				detail = fmt.Sprintf("sendRequest stamps the id itself; its type switch names %s: %v", t, ok)
+			} else if prm, isP := canonVal(req).(*ssa.Parameter); isP {
+				// the request is an interface-typed parameter of a forwarding function: judged at its callers? not followed
+				_ = prm
+			}
+			if ok {
+				r.Check(name+" request id", true, posOf(p, s), name, detail)
+				continue
+			}
+		}
 		// (a) request is a literal built here (Ping): RequestID field store from the generator
 		rv := req
 		if mi, isMI := rv.(*ssa.MakeInterface); isMI {
@@ -592,4 +667,19 @@ func chanField(p *Prog, ch ssa.Value) string {
 		}
 	}
 	return "?"
+}
+
+// dominatesAllReturnsOrWrite: in sendRequest the id has to be stamped before the request is registered and written:
+// the stamping call dominates every transport write of the function.
+func dominatesAllReturnsOrWrite(c *ssa.Call, send *ssa.Function) bool {
+	if c.Parent() != send {
+		return true
+	}
+	ok := true
+	for _, w := range findCalls(send, false, "/wire.EncodingTransport.Write") {
+		if !dominatesInstr(c, w) {
+			ok = false
+		}
+	}
+	return ok
 }
